@@ -72,6 +72,9 @@ func (r *transcodeRunner) execute(cmd *cobra.Command, args []string) (errors err
 	if valuation, err = r.valuation.Value(reg); err != nil {
 		return err
 	}
+	if valuation == nil {
+		return fmt.Errorf("missing valuation commodity: use --val")
+	}
 	b, err := journal.FromPath(cmd.Context(), reg, args[0])
 	if err != nil {
 		return err
